@@ -12,8 +12,9 @@ pattern and every interleaving of the abstract runtime (`Model/Dataflow.lean`) o
   does), every complete run ends in the heap of the reference sequential interpreter `seqRun` — collection tiles,
   arena copies and the ghost cells recording what each body saw (`obs`) and left (`out`);
 * `C02_inputs` — in particular every body of every run sees in every flow what it sees in the sequential execution;
-* `C02_inputs_named` — and when no third task writes a passed copy between producer and consumer (`NamedFresh`,
-  decidable) that value is the one the NAMED producer left in that flow.
+* `C02_inputs_named` — and when, in the sequential execution, every input fed by a task holds what that task left in the
+  named flow (`namedOKB`, decidable: false only when a third task legitimately updates the passed copy in between), then
+  in EVERY run the value seen is the content the NAMED producer left in that flow;
 * `C02_racefree_of_check` — the executable check evaluated by the driver on every generated program is sound.
 -/
 namespace ParsecVerif.C02
